@@ -303,6 +303,7 @@ func checkC12(P *Prog, r *Result) {
 	if wrapper != nil && len(wrapper.AnonFuncs) == 1 {
 		cl := wrapper.AnonFuncs[0]
 		okW := false
+		var badW []string
 		eachInstr(cl, func(_ *ssa.BasicBlock, _ int, in ssa.Instruction) {
 			ci := callOf(in)
 			if ci == nil || !ci.dynamic || len(ci.args()) != 2 {
@@ -330,9 +331,15 @@ func checkC12(P *Prog, r *Result) {
 			}
 			if strings.Join(chain, ".") == "Interface.Elem.ValueOf" && a0 == ssa.Value(cl.Params[0]) && cv(ci.args()[1]) == ssa.Value(cl.Params[1]) {
 				okW = true
+			} else if inPlace || (len(wrapper.Params) > 0 && types.Identical(ci.instr.Common().Value.Type(), wrapper.Params[0].Type())) {
+				// every call of the user's function, not just one of them: a kind-specific fast path that hands over
+				// refVal.String() / refVal.Bool() gives a TestFunc of a named string or bool kind a value of the wrong type
+				badW = append(badW, P.ipos(in))
 			}
 		})
-		if okW {
+		if okW && len(badW) > 0 {
+			r.bad("C12/primitive-testfunc-gets-value", "customTestBackwardsCompatWrapper", P.pos(wrapper.Pos()), "the wrapper also calls the user's function with something other than reflect.ValueOf(val).Elem().Interface() and the same context (a typed read such as String()/Bool() loses the node's own type): "+strings.Join(badW, ", "))
+		} else if okW {
 			r.ok("C12/primitive-testfunc-gets-value", "customTestBackwardsCompatWrapper", P.pos(wrapper.Pos()), "wrapper dereferences the destination pointer once and forwards the same context")
 		} else {
 			r.bad("C12/primitive-testfunc-gets-value", "customTestBackwardsCompatWrapper", P.pos(wrapper.Pos()), "wrapper does not call the user's function with the dereferenced destination value and the same context")
@@ -547,6 +554,9 @@ func checkC12(P *Prog, r *Result) {
 	shareRule(P, r, checkC07, "C07/pooled-map-owned", func(o Obligation) bool { return strings.Contains(o.Construct, "ExecCtx") }, "C12/context-values-own-map", 0)
 	shareRule(P, r, checkC16, "C16/no-shared-backing", nil, "C12/callbacks-not-overwritten", 4)
 	shareRule(P, r, checkC01, "C01/child-clean", nil, "C12/callbacks-not-cut-short", 15)
+	// the callbacks of the item schemas run for every element the destination holds when the loop starts: a length read
+	// before the default (or the input's items) was stored leaves the loop short and their callbacks uncalled (C01's rule)
+	shareRule(P, r, checkC01, "C01/element-loop-bound", nil, "C12/callbacks-reach-every-element", 1)
 	// the callbacks of a struct field run on the field of that name of *this* destination: the field is selected
 	// by the iteration's own key, not through an index cached from another destination type (C03's rule)
 	shareRule(P, r, checkC03, "C03/struct-writes-by-field", nil, "C12/callback-gets-own-field", 1)
